@@ -57,6 +57,8 @@ func init() {
 		verifScenario{"C12/interp.typecheck.comparison/post:equality-needs-comparable-or-nil", rejected("package main\nfunc main() { a, b := []int{1}, []int{1}; println(\"ran\"); println(a == b) }")},
 		verifScenario{"C12/interp.typecheck.comparison/post:ordering-needs-ordered", rejected("package main\nfunc main() { a, b := true, false; println(\"ran\"); println(a < b) }")},
 		verifScenario{"C12/interp.typecheck.comparison/post:operands-mutually-assignable", rejected("package main\nfunc main() { a, b := 1, \"x\"; println(\"ran\"); println(a == b) }")},
+		verifScenario{"C12/interp.typecheck.index/*", rejected("package main\nfunc main() { x := []int{1, 2}; println(\"ran\"); println(x[-1]) }")},
+		verifScenario{"C12/interp.typecheck.assignment/*", rejected("package main\ntype S interface{ M() }\nfunc main() { var s S; println(\"ran\"); s = \"x\"; _ = s }")},
 		verifScenario{"C12/interp.itype.convertibleTo/*", rejected("package main\nfunc main() { x := 1; p := &x; println(\"ran\"); _ = int(p) }")},
 		verifScenario{"C12/probe-unrelated", rejected("package main\ntype A int\ntype B int\nfunc main() { var a A = 1; var b B = a; println(b) }")},
 	)
